@@ -43,6 +43,10 @@ CHECKS = {
    text="Cyclepoint positions are z3 integers (every alternating placement with extrema >= 2 apart, midpoints anywhere in their flank), numpy.pi a z3 real within 1e-13 of pi; all paths of the real extrema_interpolated_phase/_merge_phases are executed and anchors, range, monotonicity and the finite/NaN span are proved as linear-arithmetic obligations.",
    note="Trusted: numpy model incl. interp (witness-validated). Bound: N <= 9, <= 4 extrema (quick) / N <= 12, <= 5 extrema (thorough). Float rounding inside interp not modelled.",
    ref="4 C17"),
+ 'C07': dict(
+   text="Side-extrema positions, the sample-wise detector's mask, burst_fraction_threshold and both min_n_cycles values are z3 variables; the real compute_features(amp) -> compute_burst_features -> compute_burst_fraction -> detect_bursts_amp -> check_min_burst_cycles chain runs on every feasible path (compute_shape_features cut to an arbitrary C01-conforming table) and burst_fraction, the label rule, the single effective min_n_cycles (detector argument == run filter) and threshold monotonicity are proved.",
+   note="Trusted: numpy/pandas models (witness-validated); stub for the dual-threshold detector (arbitrary mask, arguments recorded); C01 postcondition for the cut table. Bounds: 1..3 cycles on N <= 9 (quick) / 1..4 on N <= 12 (thorough). min_burst_duration not explored.",
+   ref="4 C07"),
  'C08': dict(
    text="Every boolean array up to the stated length and every integer min_n_cycles >= 0 are z3 variables; all feasible paths of the real check_min_burst_cycles are executed and the run-length formula, no-False-to-True and idempotence are proved (unsat) on each.",
    note="Trusted: the list-backed numpy model (validated per run by replaying path witnesses on real numpy); z3. Bound: length <= 10 (quick) / 13 (thorough).",
